@@ -256,11 +256,12 @@ Definition pstep (s : picker) (o : pop) : option picker :=
   | OWritten i ok => if in_range s i then Some (upd_piece s i (fun p => set_flags p ok false)) else None
   end.
 
-(* ---- observables after every operation: Available() and RequestedPeers(i) as sorted sets ---- *)
+(* ---- observables after every operation: Available(), RequestedPeers(i) and the Snubbed / Choked sets as sorted sets ---- *)
 Definition sort_z (l : list Z) : list Z :=
   fold_right (fun x acc => (fix ins (l : list Z) := match l with [] => [x] | y :: r => if x <=? y then x :: l else y :: ins r end) acc) [] l.
 Definition obs_picker (s : picker) : list Z :=
-  avail s :: flat_map (fun p => zlen (p_req p) :: sort_z (p_req p)) (pieces s).
+  avail s :: flat_map (fun p => (zlen (p_req p) :: sort_z (p_req p)) ++ (zlen (p_snub p) :: sort_z (p_snub p))
+                               ++ (zlen (p_chok p) :: sort_z (p_chok p))) (pieces s).
 
 (* ---- case codec, kind 901 ----
    in = [npieces; sequential; maxdup; (head tail)*npieces; ops...]
